@@ -100,6 +100,41 @@ pub fn gen(tier: &str, seed: u64) -> Vec<String> {
             lines.push(mk_kline("KAN", false, cfg, &h));
         }
     }
+    // zippychord (outside the kanata-level model; decided by the paired loops on the real code): the
+    // re-enable countdown after a key that is no chord, the first-press deadline and the follow-up
+    // window are time-driven state that the blocking decision has to respect
+    {
+        let dict = "dy\tday\nab\tabout\ndy 1\tMonday\n";
+        for (react, deadline) in [(100u32, 40u32), (30, 500), (500, 20)] {
+            let cfg = format!(
+                ";;file zd {}\n(defsrc x d y a b 1)\n(deflayer l0 x d y a b 1)\n(defzippy zd idle-reactivate-time {react} on-first-press-chord-deadline {deadline})\n",
+                crate::lay::hex(dict)
+            );
+            let k = |n: &str| code(n);
+            for g in [1u32, 10, react - 1, react, react + 1, 300, 1000] {
+                // a key that is no chord, a pause, then a chord
+                let h = vec![
+                    KEv::L(HEv::Press(0, k("x"))), KEv::Gap(5), KEv::L(HEv::Release(0, k("x"))), KEv::Gap(g),
+                    KEv::L(HEv::Press(0, k("d"))), KEv::Gap(5), KEv::L(HEv::Press(0, k("y"))), KEv::Gap(5),
+                    KEv::L(HEv::Release(0, k("d"))), KEv::Gap(5), KEv::L(HEv::Release(0, k("y"))), KEv::Gap(400),
+                ];
+                lines.push(mk_kline("KAN", false, &cfg, &h));
+                // first key of a chord, a pause around the deadline, then the second key
+                let h = vec![
+                    KEv::L(HEv::Press(0, k("d"))), KEv::Gap(g.min(deadline + 50)), KEv::L(HEv::Press(0, k("y"))), KEv::Gap(5),
+                    KEv::L(HEv::Release(0, k("d"))), KEv::Gap(5), KEv::L(HEv::Release(0, k("y"))), KEv::Gap(400),
+                ];
+                lines.push(mk_kline("KAN", false, &cfg, &h));
+                // a chord, a pause, then its follow-up key
+                let h = vec![
+                    KEv::L(HEv::Press(0, k("d"))), KEv::Gap(3), KEv::L(HEv::Press(0, k("y"))), KEv::Gap(3),
+                    KEv::L(HEv::Release(0, k("d"))), KEv::Gap(3), KEv::L(HEv::Release(0, k("y"))), KEv::Gap(g),
+                    KEv::L(HEv::Press(0, k("1"))), KEv::Gap(5), KEv::L(HEv::Release(0, k("1"))), KEv::Gap(400),
+                ];
+                lines.push(mk_kline("KAN", false, &cfg, &h));
+            }
+        }
+    }
     // random whole-grammar configurations
     let n = if thorough { 25000 } else { 2200 };
     for i in 0..n {
